@@ -31,6 +31,16 @@ def perturbed_points(names, rnd, n):
     return pts
 
 
+def names_cases(add):
+    """every legal variable name is a legal coordinate name (Point(**{...}), bare number, inside larger trees)"""
+    for nm in ["self", "é", "1x", "class", "_", "whatever", "x1", "Δt", "None", "cls", "kwargs", "point"]:
+        V = J.Var(nm)
+        for t in (V, J.KUn("NthPower", V, 2), J.Add(V, gen.Y), J.Mul(V, J.Var("self")), J.Un("Reciprocal", V)):
+            vs = sorted(J.variables(t))
+            add(t, pts=gen.grid(vs, [gen.q(0), gen.q(3)]) + [{k: gen.q(2) for k in vs[:-1]}])
+            add(t, pts=[gen.q(3), gen.q(0)], mode="number")
+
+
 def cases_for(pid, tier, seed):
     """list of cases: dict(tree, share, mode, pts)"""
     rnd = random.Random(1000 + seed)
@@ -97,18 +107,13 @@ def cases_for(pid, tier, seed):
                         pts.append({nm: rnd.choice(G) for nm in names})
             add(t, pts=pts)
             add(t, pts=[gen.q(1), gen.q(0), gen.q(-2)], mode="number")
-        # every legal variable name is a legal coordinate name (Point(**{...}), bare number, inside larger trees)
-        for nm in ["self", "é", "1x", "class", "_", "whatever", "x1", "Δt", "None", "cls", "kwargs", "point"]:
-            V = J.Var(nm)
-            for t in (V, J.KUn("NthPower", V, 2), J.Add(V, gen.Y), J.Mul(V, J.Var("self")), J.Un("Reciprocal", V)):
-                vs = sorted(J.variables(t))
-                add(t, pts=gen.grid(vs, [gen.q(0), gen.q(3)]) + [{k: gen.q(2) for k in vs[:-1]}])
-                add(t, pts=[gen.q(3), gen.q(0)], mode="number")
+        names_cases(add)
         # sub-expression objects used on their own AFTER larger expressions were built on top of them (shared objects)
         for t in rnd.sample(trees, 300 if tier == "quick" else 3000):
             if J.size(t) >= 3:
                 cases.append({"tree": t, "share": True, "mode": "number", "pts": [gen.q(2), gen.q(0)], "subnodes": True})
     if pid == "C17":
+        names_cases(add)
         for c in list(cases)[:1500]:
             if c["mode"] == "point" and J.variables(c["tree"]):
                 vs = sorted(J.variables(c["tree"]))
@@ -157,8 +162,7 @@ def run_impl(cases):
                 else:
                     svs.append({"k": "ill"})
             else:
-                pt = J.build_point(p)
-                outs.append(J.outcome_of(lambda: root.at(pt)))
+                outs.append(J.outcome_of(lambda: root.at(J.build_point(p))))
                 if set(vs) <= set(p):
                     svs.append(SV.sv_record(SV.value(c["tree"], p)))
                 else:
